@@ -79,55 +79,56 @@ impl Row {
     pub open spec fn int0n(self) -> Seq<int> { sub(self.n, self.em(), self.d) }
 
     // ------------------------------------------------ the polynomials the table must assert (selector x runner residual)
-    pub open spec fn p_add(self, l: int, i: int) -> int { self.pf(l, P_SEL_ADD) * (self.a(l)[i] + self.b(l)[i] - self.out(l)[i]) }
-    pub open spec fn p_mul(self, l: int, i: int) -> int { self.sel_mul(l) * (emul(self.a(l), self.b(l))[i] - self.out(l)[i]) }
-    pub open spec fn p_bool0(self, l: int) -> int { self.pf(l, P_SEL_BOOL) * self.a(l)[0] * (self.a(l)[0] - 1) }
-    pub open spec fn p_booli(self, l: int, i: int) -> int { self.pf(l, P_SEL_BOOL) * self.a(l)[i] }
-    pub open spec fn p_muladd(self, l: int, i: int) -> int { self.pf(l, P_SEL_MULADD) * (emul(self.a(l), self.b(l))[i] + self.c(l)[i] - self.out(l)[i]) }
+    pub open spec fn p_add(self, l: int, i: int) -> int { rmul(self.pf(l, P_SEL_ADD), self.a(l)[i] + self.b(l)[i] - self.out(l)[i]) }
+    pub open spec fn p_mul(self, l: int, i: int) -> int { rmul(self.sel_mul(l), emul(self.a(l), self.b(l))[i] - self.out(l)[i]) }
+    pub open spec fn p_bool0(self, l: int) -> int { rmul(rmul(self.pf(l, P_SEL_BOOL), self.a(l)[0]), self.a(l)[0] - 1) }
+    pub open spec fn p_booli(self, l: int, i: int) -> int { rmul(self.pf(l, P_SEL_BOOL), self.a(l)[i]) }
+    pub open spec fn p_muladd(self, l: int, i: int) -> int { rmul(self.pf(l, P_SEL_MULADD), emul(self.a(l), self.b(l))[i] + self.c(l)[i] - self.out(l)[i]) }
     /// one runner Horner step from this row's out to the next row's out
     pub open spec fn p_single(self, l: int, i: int) -> int {
-        self.nf(l, P_SEL_HORNER) * (estep(self.out(l), self.na(l), self.nc(l), self.nb(l), i) - self.nout(l)[i])
+        rmul(self.nf(l, P_SEL_HORNER), estep(self.out(l), self.na(l), self.nc(l), self.nb(l), i) - self.nout(l)[i])
     }
-    pub open spec fn p_bsq(self, i: int) -> int { self.sum_sel(self.pl, 2, self.k + 1) * (self.bsq()[i] - emul(self.b(0), self.b(0))[i]) }
+    pub open spec fn p_bsq(self, i: int) -> int { rmul(self.sum_sel(self.pl, 2, self.k + 1), self.bsq()[i] - emul(self.b(0), self.b(0))[i]) }
     pub open spec fn poly2(self, i: int) -> int { estep2(self.out(0), self.bsqn(), self.na(0), self.nc(0), self.a1n(), self.c1n(), self.nb(0), i) }
-    pub open spec fn p_k2(self, i: int) -> int { self.selk(self.pn, 2) * (self.poly2(i) - self.nout(0)[i]) }
-    pub open spec fn p_ge3(self, i: int) -> int { self.sum_sel(self.pn, 3, self.k + 1) * (self.poly2(i) - self.int0n()[i]) }
+    pub open spec fn p_k2(self, i: int) -> int { rmul(self.selk(self.pn, 2), self.poly2(i) - self.nout(0)[i]) }
+    pub open spec fn p_ge3(self, i: int) -> int { rmul(self.sum_sel(self.pn, 3, self.k + 1), self.poly2(i) - self.int0n()[i]) }
     pub open spec fn p_fallback(self, i: int) -> int {
-        (self.nf(0, P_SEL_HORNER) - self.sum_sel(self.pn, 2, self.k + 1)) * (estep(self.out(0), self.na(0), self.nc(0), self.nb(0), i) - self.nout(0)[i])
+        rmul(self.nf(0, P_SEL_HORNER) - self.sum_sel(self.pn, 2, self.k + 1), estep(self.out(0), self.na(0), self.nc(0), self.nb(0), i) - self.nout(0)[i])
     }
     /// pair of steps s = 2+2t, s+1 of an arity-kk row, from intermediate t into `target`
     pub open spec fn p_pair(self, kk: int, t: int, target: Seq<int>, i: int) -> int {
         let s = 2 + 2 * t;
-        self.selk(self.pl, kk) * (estep2(self.iv_(t), self.bsq(), self.av(s), self.cv(s), self.av(s + 1), self.cv(s + 1), self.b(0), i) - target[i])
+        rmul(self.selk(self.pl, kk), estep2(self.iv_(t), self.bsq(), self.av(s), self.cv(s), self.av(s + 1), self.cv(s + 1), self.b(0), i) - target[i])
     }
     /// odd tail step s = 2+2t of an arity-kk row: one runner step from intermediate t into out
     pub open spec fn p_tail(self, kk: int, t: int, i: int) -> int {
         let s = 2 + 2 * t;
-        self.selk(self.pl, kk) * (estep(self.iv_(t), self.av(s), self.cv(s), self.b(0), i) - self.out(0)[i])
+        rmul(self.selk(self.pl, kk), estep(self.iv_(t), self.av(s), self.cv(s), self.b(0), i) - self.out(0)[i])
     }
-    pub open spec fn all0(self, f: spec_fn(int) -> int, lo: int) -> bool { forall|i: int| lo <= i < self.d ==> #[trigger] f(i) == 0 }
+    pub open spec fn pair_ok(self, kk: int, t: int, target: Seq<int>) -> bool { forall|i: int| 0 <= i < self.d ==> #[trigger] self.p_pair(kk, t, target, i) == 0 }
+    pub open spec fn tail_ok(self, kk: int, t: int) -> bool { forall|i: int| 0 <= i < self.d ==> #[trigger] self.p_tail(kk, t, i) == 0 }
     pub open spec fn leg_ok(self, kk: int, t: int) -> bool {
         let s = 2 + 2 * t;
         if s >= kk { true }
-        else if s + 1 < kk {
-            if s + 2 >= kk { self.all0(|i: int| self.p_pair(kk, t, self.out(0), i), 0) } else { self.all0(|i: int| self.p_pair(kk, t, self.iv_(t + 1), i), 0) }
-        } else { self.all0(|i: int| self.p_tail(kk, t, i), 0) }
+        else if s + 1 < kk { if s + 2 >= kk { self.pair_ok(kk, t, self.out(0)) } else { self.pair_ok(kk, t, self.iv_(t + 1)) } }
+        else { self.tail_ok(kk, t) }
     }
     pub open spec fn legs_ok(self, kk: int) -> bool { forall|t: int| 0 <= t < kk ==> #[trigger] self.leg_ok(kk, t) }
     pub open spec fn packed_ok(self) -> bool {
-        &&& self.all0(|i: int| self.p_bsq(i), 0)
-        &&& self.all0(|i: int| self.p_k2(i), 0)
-        &&& self.all0(|i: int| self.p_ge3(i), 0)
-        &&& self.all0(|i: int| self.p_fallback(i), 0)
+        &&& forall|i: int| 0 <= i < self.d ==> #[trigger] self.p_bsq(i) == 0
+        &&& forall|i: int| 0 <= i < self.d ==> #[trigger] self.p_k2(i) == 0
+        &&& forall|i: int| 0 <= i < self.d ==> #[trigger] self.p_ge3(i) == 0
+        &&& forall|i: int| 0 <= i < self.d ==> #[trigger] self.p_fallback(i) == 0
         &&& forall|kk: int| 3 <= kk <= self.k ==> #[trigger] self.legs_ok(kk)
     }
+    pub open spec fn single_ok(self, l: int) -> bool { forall|i: int| 0 <= i < self.d ==> #[trigger] self.p_single(l, i) == 0 }
     pub open spec fn lane_ok(self, l: int) -> bool {
-        &&& self.all0(|i: int| self.p_add(l, i), 0)
-        &&& self.all0(|i: int| self.p_mul(l, i), 0)
+        &&& forall|i: int| 0 <= i < self.d ==> #[trigger] self.p_add(l, i) == 0
+        &&& forall|i: int| 0 <= i < self.d ==> #[trigger] self.p_mul(l, i) == 0
         &&& self.p_bool0(l) == 0
-        &&& self.all0(|i: int| self.p_booli(l, i), 1)
-        &&& self.all0(|i: int| self.p_muladd(l, i), 0)
-        &&& (if l == 0 && self.has_extra() { self.packed_ok() } else { self.all0(|i: int| self.p_single(l, i), 0) })
+        &&& forall|i: int| 1 <= i < self.d ==> #[trigger] self.p_booli(l, i) == 0
+        &&& forall|i: int| 0 <= i < self.d ==> #[trigger] self.p_muladd(l, i) == 0
+        &&& (if l == 0 && self.has_extra() { self.packed_ok() } else { self.single_ok(l) })
     }
     pub open spec fn row_ok(self) -> bool { forall|l: int| 0 <= l < self.lanes ==> #[trigger] self.lane_ok(l) }
     pub open spec fn wf(self) -> bool {
@@ -225,7 +226,8 @@ def build():
     u.assume('column views: `slice.borrow()` into AluMainLaneCols / AluPrepLaneCols reads fields in declaration order (repr(C)); views generated from the real struct text')
     u.assume('row windows: local/next have equal length; all lengths < 2^32; D, lanes, K < 2^16; K >= 2 (TablePacking::validate, unit meta)')
     u.assume('lemma_two_steps only: ring laws of emul (linearity in the first argument, associativity) -- ASSUMED axioms, not used by the eval proof')
-    u.text(AIR_PRELUDE)
+    # R11: ring multiplication is an uninterpreted binary operation here (no theory needed: every obligation is an equality of terms)
+    u.text(AIR_PRELUDE.replace('self.v@ * rhs.v@', 'rmul(self.v@, rhs.v@)').replace('self.v@ * o.v@', 'rmul(self.v@, o.v@)').replace('verus! {\nglobal size_of usize == 8;', 'verus! {\nglobal size_of usize == 8;\npub uninterp spec fn rmul(a: int, b: int) -> int;'))
     views, (prep, step, main) = gen_views()
     u.text(views)
     u.text(SPEC)
@@ -251,7 +253,6 @@ def build():
                          'prefix emits the bus interactions (eval_alu_interactions, separate function), binds the row windows local/next/prep_local/prep_next and lane_width '
                          '(parameters here), debug-asserts the width and defines the ext_mul_lane closure (stub here)')
     e.set_sig('R11', 'fn eval(&self, builder: &mut AB, local: &[R], next: &[R], prep_local: &[R], prep_next: &[R], lane_width: usize)', sliced=True)
-    e.attr('#[verifier::loop_isolation(false)]')
     e.rewrite_re('R11', r'let (\w+): &AluMainLaneCols<_, D> = (\w+)\[([^\]]+)\]\.borrow\(\);', r'let \1 = borrow_main::<D>(&\2[\3]);', min_count=2)
     e.rewrite_re('R11', r'let (\w+): &AluPrepLaneCols<_> = (\w+)\[([^\]]+)\]\.borrow\(\);', r'let \1 = borrow_prep(&\2[\3]);', min_count=2)
     e.rewrite_re('R11', r'= &(lane_local|lane_next)\.(\w+);', r'= \1.\2;', min_count=8)
@@ -281,61 +282,89 @@ def build():
     ]
     e.pin_call_args('builder.assert_zero(', PINS)
 
-    # ------------------------------------------------------------------ ghost scaffolding
+    # ------------------------------------------------------------------ ghost scaffolding (every loop carries its own context: small queries)
+    def vec(name, spec):
+        return f'{name}@.len() == D && iv({name}@) == {spec}'
+    G = f'r == ({ROW}) && r.wf() && lane_width == NMAIN * D'
+    L = 'ln == lane as int && 0 <= ln < r.lanes && ' + ' && '.join([vec('a', 'r.a(ln)'), vec('b', 'r.b(ln)'), vec('c', 'r.c(ln)'), vec('out', 'r.out(ln)')])
+    N = ' && '.join([vec('next_a', 'r.na(ln)'), vec('next_b', 'r.nb(ln)'), vec('next_c', 'r.nc(ln)'), vec('next_out', 'r.nout(ln)'),
+                     'next_sel_horner.v@ == r.nf(ln, P_SEL_HORNER)', vec('out_next_b', 'emul(r.out(ln), r.nb(ln))')])
+    AB_ = vec('ab', 'emul(r.a(ln), r.b(ln))')
+    P = ('ln == 0 && r.has_extra() && extra_main == r.em() && extra_prep == r.ep() && k_max == r.k && num_int == r.nint() && ac_base == r.acb() && b_sq_base == r.bsqb() && '
+         + vec('b_sq', 'r.bsq()'))
+
+    # loop-end proof steps first (loop headers are located textually; invariants added later contain braces)
+    e.at_loop_end('while s < kk', 'proof { assert(builder.ok@ == (ok_leg && r.leg_ok(kk as int, t_))); t_ = t_ + 1; }')
+    e.at_loop_end('for kk in 3..k_max + 1', 'proof { assert(builder.ok@ == (ok_kk && r.legs_ok(kk as int))); }', nth=1)
+    e.at_loop_end('for lane in 0..self.lanes', 'proof { assert(builder.ok@ == (okl && r.lane_ok(ln))); }')
     e.at_start(f'let ghost r = {ROW}; let ghost ok0 = builder.ok@;')
-    e.loop('for lane in 0..self.lanes', invariants=[('lanes_done', 'builder.ok@ == (ok0 && forall|l: int| 0 <= l < lane ==> #[trigger] r.lane_ok(l))')])
-    e.before('let m = lane * lane_width;', '''let ghost okl = builder.ok@; let ghost ln = lane as int;
+    e.loop('for lane in 0..self.lanes', invariants=[('ctx', G), ('lanes_done', 'builder.ok@ == (ok0 && forall|l: int| 0 <= l < lane ==> #[trigger] r.lane_ok(l))')])
+    e.before('let m = lane * lane_width;', """let ghost okl = builder.ok@; let ghost ln = lane as int;
             proof { lemma_mul_mono(ln + 1, r.lanes, r.lw()); lemma_mul_dist(ln, 1, r.lw()); lemma_mul_mono(ln + 1, r.lanes, NPREP); lemma_mul_dist(ln, 1, NPREP);
-                    lemma_mul_mono(ln, ln + 1, r.lw()); lemma_mul_mono(ln, ln + 1, NPREP); }''')
-    e.before('let mult_a = prep_cur.mult_a;', '''proof {
+                    lemma_mul_mono(ln, ln + 1, r.lw()); lemma_mul_mono(ln, ln + 1, NPREP); }""")
+    e.before('let mult_a = prep_cur.mult_a;', """proof {
                 assert(iv(a@) =~= r.a(ln)); assert(iv(b@) =~= r.b(ln)); assert(iv(c@) =~= r.c(ln)); assert(iv(out@) =~= r.out(ln));
-            }''')
+            }""")
 
-    def coef_loop(nth, okname, pexpr, hdr='for i in 0..D', lo='0'):
+    def coef_loop(nth, okname, pexpr, ctx, hdr='for i in ', lo='0'):
         e.before(hdr, f'let ghost {okname} = builder.ok@;', nth=nth)
-        e.loop(hdr, invariants=[('coefficients_done', f'builder.ok@ == ({okname} && forall|j: int| {lo} <= j < i ==> #[trigger] ({pexpr}) == 0)')], nth=nth)
+        e.loop(hdr, invariants=[('ctx', ctx), ('coefficients_done', f'builder.ok@ == ({okname} && forall|j: int| {lo} <= j < i ==> #[trigger] ({pexpr}) == 0)')], nth=nth)
 
-    # loops in textual order; do the later ones first so that earlier `nth` indices stay valid
-    coef_loop(9, 'ok_single', 'r.p_single(ln, j)')
-    coef_loop(8, 'ok_tail', 'r.p_tail(kk as int, t_, j)')
-    coef_loop(7, 'ok_mid', 'r.p_pair(kk as int, t_, r.iv_(t_ + 1), j)')
-    coef_loop(6, 'ok_last', 'r.p_pair(kk as int, t_, r.out(0), j)')
-    coef_loop(5, 'ok_fb', 'r.p_fallback(j)')
-    e.before('for i in 0..D', 'let ghost ok_k2 = builder.ok@;', nth=4)
-    e.loop('for i in 0..D', invariants=[('coefficients_done', 'builder.ok@ == (ok_k2 && (forall|j: int| 0 <= j < i ==> #[trigger] r.p_k2(j) == 0) && (forall|j: int| 0 <= j < i ==> #[trigger] r.p_ge3(j) == 0))')], nth=4)
-    coef_loop(3, 'ok_bsq', 'r.p_bsq(j)')
-    coef_loop(2, 'ok_ma', 'r.p_muladd(ln, j)')
-    coef_loop(0, 'ok_bi', 'r.p_booli(ln, j)', hdr='for i in 1..D', lo='1')
-    coef_loop(1, 'ok_mul', 'r.p_mul(ln, j)')
-    coef_loop(0, 'ok_add', 'r.p_add(ln, j)')
+    SK = 'sel_kk.v@ == r.selk(r.pl, kk as int) && 3 <= kk <= k_max && s == 2 + 2 * t_ && 0 <= t_ && s < kk'
+    LEG = f'{G} && {L} && {P} && {SK} && ' + ' && '.join([vec('a_s', 'r.av(s as int)'), vec('c_s', 'r.cv(s as int)')])
+    PAIR = LEG + ' && ' + ' && '.join([vec('a_sp1', 'r.av(s as int + 1)'), vec('c_sp1', 'r.cv(s as int + 1)'), vec('int_b_sq', 'emul(r.iv_(t_), r.bsq())'),
+                                       vec('c_s_b', 'emul(r.cv(s as int), r.b(0))'), vec('a_s_b', 'emul(r.av(s as int), r.b(0))')])
+    # loops in textual order; the later ones first so that earlier `nth` indices stay valid
+    coef_loop(10, 'ok_single', 'r.p_single(ln, j)', f'{G} && {L} && {N}')
+    coef_loop(9, 'ok_tail', 'r.p_tail(kk as int, t_, j)', LEG + ' && ' + vec('int_b', 'emul(r.iv_(t_), r.b(0))'))
+    coef_loop(8, 'ok_mid', 'r.p_pair(kk as int, t_, r.iv_(t_ + 1), j)', PAIR + ' && ' + vec('int_next', 'r.iv_(t_ + 1)'))
+    coef_loop(7, 'ok_last', 'r.p_pair(kk as int, t_, r.out(0), j)', PAIR)
+    coef_loop(6, 'ok_fb', 'r.p_fallback(j)', f'{G} && {L} && {N} && ln == 0 && next_sel_single.v@ == r.nf(0, P_SEL_HORNER) - r.sum_sel(r.pn, 2, r.k + 1)')
+    e.before('for i in ', 'let ghost ok_k2 = builder.ok@;', nth=5)
+    e.loop('for i in ', invariants=[
+        ('ctx', f'{G} && {L} && {N} && {P} && next_sel_k2.v@ == r.selk(r.pn, 2) && sel_ge3_next.v@ == r.sum_sel(r.pn, 3, r.k + 1) && ' + ' && '.join([
+            vec('out_b_sq', 'emul(r.out(0), r.bsqn())'), vec('c0_b_next', 'emul(r.nc(0), r.nb(0))'), vec('a0_b_next', 'emul(r.na(0), r.nb(0))'),
+            vec('a1_next', 'r.a1n()'), vec('c1_next', 'r.c1n()'), vec('next_int0', 'r.int0n()')])),
+        ('coefficients_done', 'builder.ok@ == (ok_k2 && (forall|j: int| 0 <= j < i ==> #[trigger] r.p_k2(j) == 0) && (forall|j: int| 0 <= j < i ==> #[trigger] r.p_ge3(j) == 0))')], nth=5)
+    coef_loop(4, 'ok_bsq', 'r.p_bsq(j)', f'{G} && {L} && {P} && any_packed_cur.v@ == r.sum_sel(r.pl, 2, r.k + 1) && ' + vec('bb', 'emul(r.b(0), r.b(0))'))
+    coef_loop(3, 'ok_ma', 'r.p_muladd(ln, j)', f'{G} && {L} && {AB_} && sel_muladd.v@ == r.pf(ln, P_SEL_MULADD)')
+    coef_loop(2, 'ok_bi', 'r.p_booli(ln, j)', f'{G} && {L} && sel_bool.v@ == r.pf(ln, P_SEL_BOOL)', lo='1')
+    coef_loop(1, 'ok_mul', 'r.p_mul(ln, j)', f'{G} && {L} && {AB_} && sel_mul.v@ == r.sel_mul(ln)')
+    coef_loop(0, 'ok_add', 'r.p_add(ln, j)', f'{G} && {L} && sel_add.v@ == r.pf(ln, P_SEL_ADD)')
 
-    # selector sums
-    e.loop('for kk in 2..k_max + 1', invariants=[('sum', 'any_packed_cur.v@ == r.sum_sel(r.pl, 2, kk as int)')], nth=0)
-    e.loop('for kk in 2..k_max + 1', invariants=[('sum', 'any_packed_next.v@ == r.sum_sel(r.pn, 2, kk as int)')], nth=1)
-    e.loop('for kk in 3..k_max + 1', invariants=[('sum', 'sel_ge3_next.v@ == r.sum_sel(r.pn, 3, kk as int)')], nth=0)
-    # legs
-    e.before('for kk in 3..k_max + 1', 'let ghost ok_legs = builder.ok@;', nth=1)
-    e.loop('for kk in 3..k_max + 1', invariants=[('legs_done', 'builder.ok@ == (ok_legs && forall|q: int| 3 <= q < kk ==> #[trigger] r.legs_ok(q))')], nth=1)
-    e.before('while s < kk', 'let ghost ok_kk = builder.ok@; let ghost mut t_: int = 0;')
-    e.loop('while s < kk', invariants=[
-        ('position', '2 <= s && 0 <= t_ && s <= 2 + 2 * t_ && (s < kk ==> s == 2 + 2 * t_ && curr_int_slot == t_) && 3 <= kk <= k_max'),
-        ('legs_of_this_arity_done', 'builder.ok@ == (ok_kk && forall|q: int| 0 <= q < t_ ==> #[trigger] r.leg_ok(kk as int, q))'),
-    ], decreases='kk - s')
-    e.at_loop_end('while s < kk', 'proof { t_ = t_ + 1; }')
-    e.before('let extra_main = self.lanes * lane_width;', '''proof {
+    # facts about the next row / extra region, established once per lane
+    e.before('let extra_main = self.lanes * lane_width;', """proof {
                 assert(iv(next_a@) =~= r.na(ln)); assert(iv(next_b@) =~= r.nb(ln)); assert(iv(next_c@) =~= r.nc(ln)); assert(iv(next_out@) =~= r.nout(ln));
                 lemma_xw(r);
-            }''')
+            }""")
     e.after('let extra_coeff_width = (num_int + 2 * (k_max - 1) + 1) * D;', 'proof { assert(extra_main == r.em() && extra_prep == r.ep() && num_int == r.nint() && extra_coeff_width == r.xw()); }')
     e.after('let has_extra_cols = extra_main + extra_coeff_width <= local.len() && extra_prep + horner_extra_prep_width(k_max) <= prep_local.len() && extra_prep + horner_extra_prep_width(k_max) <= prep_next.len();',
             'proof { assert(has_extra_cols == r.has_extra()); }')
     e.after('let b_sq_next = &next[b_sq_base..b_sq_base + D];', 'proof { assert(ac_base == r.acb() && b_sq_base == r.bsqb()); assert(iv(b_sq@) =~= r.bsq()); assert(iv(b_sq_next@) =~= r.bsqn()); assert(iv(next_int0@) =~= r.int0n()); }')
+    e.before('let off1 = ac_base_next;', 'proof { lemma_ac(r, 1); }')
     e.after('let c1_next = &next[off1 + D..off1 + 2 * D];', 'proof { assert(iv(a1_next@) =~= r.a1n()); assert(iv(c1_next@) =~= r.c1n()); }')
-    e.before('let int_curr = &local', 'proof { lemma_slot(r, t_); lemma_ac(r, s as int); }')
+
+    # selector sums
+    SUMCTX = f'{G} && r.has_extra() && extra_prep == r.ep() && k_max == r.k && r.xpw() >= r.k - 1 && r.ep() >= 0'
+    e.loop('for kk in 2..k_max + 1', invariants=[('ctx', SUMCTX), ('sum', 'any_packed_cur.v@ == r.sum_sel(r.pl, 2, kk as int)')], nth=0)
+    e.loop('for kk in 2..k_max + 1', invariants=[('ctx', SUMCTX), ('sum', 'any_packed_next.v@ == r.sum_sel(r.pn, 2, kk as int)')], nth=1)
+    e.loop('for kk in 3..k_max + 1', invariants=[('ctx', SUMCTX), ('sum', 'sel_ge3_next.v@ == r.sum_sel(r.pn, 3, kk as int)')], nth=0)
+    # legs
+    LEGS = f'{G} && {L} && {P} && r.xpw() >= r.k - 1 && r.ep() >= 0'
+    e.before('for kk in 3..k_max + 1', 'let ghost ok_legs = builder.ok@;', nth=1)
+    e.loop('for kk in 3..k_max + 1', invariants=[('ctx', LEGS), ('legs_done', 'builder.ok@ == (ok_legs && forall|q: int| 3 <= q < kk ==> #[trigger] r.legs_ok(q))')], nth=1)
+    e.before('while s < kk', 'let ghost ok_kk = builder.ok@; let ghost mut t_: int = 0;')
+    e.loop('while s < kk', invariants=[
+        ('ctx', LEGS + ' && sel_kk.v@ == r.selk(r.pl, kk as int) && 3 <= kk <= k_max'),
+        ('position', '2 <= s && 0 <= t_ && s <= 2 + 2 * t_ && (s < kk ==> s == 2 + 2 * t_ && curr_int_slot == t_)'),
+        ('legs_of_this_arity_done', 'builder.ok@ == (ok_kk && forall|q: int| 0 <= q < t_ ==> #[trigger] r.leg_ok(kk as int, q))'),
+    ], decreases='kk - s')
+    e.before('let int_curr = &local', 'let ghost ok_leg = builder.ok@; proof { lemma_xw(r); lemma_slot(r, t_); lemma_ac(r, s as int); }')
     e.after('let c_s = &local[off_s + D..off_s + 2 * D];', 'proof { assert(iv(int_curr@) =~= r.iv_(t_)); assert(iv(a_s@) =~= r.av(s as int)); assert(iv(c_s@) =~= r.cv(s as int)); }')
     e.before('let off_sp1 = ac_base + 2 * s * D;', 'proof { lemma_ac(r, s as int + 1); }')
     e.after('let c_sp1 = &local[off_sp1 + D..off_sp1 + 2 * D];', 'proof { assert(iv(a_sp1@) =~= r.av(s as int + 1)); assert(iv(c_sp1@) =~= r.cv(s as int + 1)); }')
     e.before('let int_next = &local', 'proof { lemma_slot(r, t_ + 1); }')
+    e.after('let int_next = &local[extra_main + (curr_int_slot + 1) * D ..extra_main + (curr_int_slot + 2) * D];', 'proof { assert(iv(int_next@) =~= r.iv_(t_ + 1)); }')
     return finish(u, e)
 
 
